@@ -78,11 +78,77 @@ def scan_switch():
     return None, None, "Stream.Flush maintains inFallbackState in a way the translator does not know"
 
 
-def write_switch(sticky):
+READ_HDR = "func (s *Stream) readMore(minSize int) (err error) {"
+
+
+def scan_reader():
+    """Translator for the switch of Model/MuxReader.v: does the closeNotifyCh branch of Stream.readMore move pending
+    data before its length test?  Returns (moves, description, error); the rest of readMore must have the shape the
+    model mirrors (entry: moveTo, length, IsOpen test; select over the three channels; data branch: moveTo, test)."""
+    try:
+        stream = open(os.path.join(core.REPO, "stream.go")).read()
+    except OSError as ex:
+        return None, None, "cannot read stream.go: %s" % ex
+    body = func_body(stream, READ_HDR)
+    if body is None:
+        return None, None, "cannot find Stream.readMore in stream.go"
+    head = "s.pendingData.moveTo(s.recvBuf) recvLen := s.recvBuf.Len() if recvLen >= minSize { return nil } if recvLen == 0 && !s.IsOpen() { "
+    e_old = head + "return ErrEndOfStream } var timeoutCh"
+    e_new = head + "s.pendingData.moveTo(s.recvBuf) if s.recvBuf.Len() >= minSize { return nil } if s.recvBuf.Len() == 0 { return ErrEndOfStream } } var timeoutCh"
+    if e_old in body:
+        entry = False
+    elif e_new in body:
+        entry = True
+    else:
+        return None, None, "the entry of Stream.readMore (moveTo; length; `recvLen == 0 && !IsOpen()` -> ErrEndOfStream [after another moveTo]) has changed: Model/MuxReader.v no longer mirrors it"
+    if "case <-s.recvNotifyCh: s.pendingData.moveTo(s.recvBuf) if s.recvBuf.Len() >= minSize { return nil } case <-s.closeNotifyCh:" not in body:
+        return None, None, "the recvNotifyCh branch of Stream.readMore no longer is `moveTo; length test`"
+    if body.count("select {") != 1 or "case <-timeoutCh: return ErrTimeout" not in body:
+        return None, None, "Stream.readMore no longer waits in one select over recvNotifyCh / closeNotifyCh / timeoutCh"
+    tail = " if s.recvBuf.Len() >= minSize { return nil } if s.getStreamState() == uint32(streamHalfClosed) { return ErrEndOfStream } return ErrStreamClosed case <-timeoutCh:"
+    if "case <-s.closeNotifyCh: s.pendingData.moveTo(s.recvBuf)" + tail in body:
+        return (True, entry), "the closeNotifyCh branch moves pending data before its length test; the entry test %s" % ("moves pending data again before reporting the end" if entry else "reports the end from the length read before"), None
+    if "case <-s.closeNotifyCh:" + tail in body:
+        return (False, entry), "the closeNotifyCh branch tests the length WITHOUT moving pending data first", None
+    return None, None, "the closeNotifyCh branch of Stream.readMore has a shape the translator does not know"
+
+
+def rewrite_stream():
+    """A copy of the current stream.go in which readMore's select / entry test call the harness (see
+    go/harness/c07_mux_test.go, c07ReadSelect / c07ReadEntryIsOpen).  Returns (overlay dict, error)."""
+    src = open(os.path.join(core.REPO, "stream.go")).read()
+    i = src.find(READ_HDR)
+    j = src.find("\n}\n", i)
+    if i < 0 or j < 0:
+        return None, "cannot find Stream.readMore"
+    fn = src[i:j]
+    subs = [("\t\tselect {\n", "\t\tswitch c07ReadSelect(s, timeoutCh) {\n"),
+            ("\t\tcase <-s.recvNotifyCh:\n", "\t\tcase 0:\n"),
+            ("\t\tcase <-s.closeNotifyCh:\n", "\t\tcase 1:\n"),
+            ("\t\tcase <-timeoutCh:\n", "\t\tcase 2:\n"),
+            ("if recvLen == 0 && !s.IsOpen() {", "if recvLen == 0 && !c07ReadEntryIsOpen(s) {")]
+    for a, b in subs:
+        if fn.count(a) != 1:
+            return None, "Stream.readMore: %r occurs %d times (expected once): cannot put the reader under control" % (a.strip(), fn.count(a))
+        fn = fn.replace(a, b)
+    out = os.path.join(core.WORK, "c07_stream_%s" % core.tree_hash())
+    os.makedirs(out, exist_ok=True)
+    dst = os.path.join(out, "stream.go")
+    with open(dst, "w") as fh:
+        fh.write(src[:i] + fn + src[j:])
+    return {os.path.join(core.REPO, "stream.go"): dst}, None
+
+
+def write_switch(sticky, moves_entry):
+    moves, entry = moves_entry
     txt = ("(* GENERATED from /repo's stream.go by props/C07.py (mechanism G for the switch of Model/Mux.v). Do not edit. *)\n"
            "(* true: Stream.Flush only ever SETS inFallbackState (sticky: a stream switches from the queue to the socket once);\n"
            "   false: Flush assigns it from the current buffer (the stream returns to the queue when shm recovers). *)\n"
-           "Definition sw_fallback_sticky : bool := %s.\n" % ("true" if sticky else "false"))
+           "Definition sw_fallback_sticky : bool := %s.\n"
+           "(* true: the closeNotifyCh branch of Stream.readMore moves pending data into recvBuf before its length test. *)\n"
+           "Definition sw_close_branch_moves : bool := %s.\n"
+           "(* true: the entry test of Stream.readMore moves pending data again before it reports the end of the stream. *)\n"
+           "Definition sw_entry_rechecks : bool := %s.\n" % ("true" if sticky else "false", "true" if moves else "false", "true" if entry else "false"))
     with core.Lock("coq"):
         old = open(SWITCH_FILE).read() if os.path.exists(SWITCH_FILE) else None
         if old != txt:
@@ -190,10 +256,40 @@ def eval_cases(items, tag):
     return bad
 
 
+RES = {"ok": 1, "eos": 2, "closed": 3, "timeout": 4, "nothing": 0}
+
+
+def eval_reader(cases, tag):
+    """Replay the driver histories of the synchronous reader on Model/MuxReader.v. Returns list of (case id, model code)."""
+    items = [c for c in cases if c.get("reader")]
+    if not items:
+        return []
+    def q(a):   # the constructors of Model/MuxReader.v (AStep also names a constructor of Corr/MuxCorr.v)
+        return "(" + " ".join("MuxReader." + w if w[0].isalpha() else w for w in a.split()) + ")"
+    rows = ["{| ra := %s; rm := %d; rr := %d |}" % (core.coq_list([q(a) for a in c["reader"]["acts"]]), c["reader"]["min"],
+                                                   RES.get(c["reader"]["first"], 0)) for c in items]
+    txt = ["From Coq Require Import List ZArith.", "From Shm Require Import Model.MuxReader Corr.MuxCorr.",
+           "Import ListNotations.", "Open Scope nat_scope.",
+           "Definition cases : list rcase := [", ";\n".join(rows), "].",
+           "Definition M := Eval vm_compute in rmismatches cases.", "Print M."]
+    rc, out, _ = core.coq_eval("rcases_%s_%s_%d" % (PROP, tag, os.getpid()), "\n".join(txt))
+    if rc != 0:
+        raise RuntimeError("coqc on the reader cases failed: " + out[-1500:])
+    m = re.search(r"M\s*=\s*(.*?)\s*:\s*list", out, re.S)
+    if not m:
+        raise RuntimeError("cannot parse the reader mismatch list: " + out[-500:])
+    return [(items[int(a)]["id"], int(b)) for a, b in re.findall(r"\((\d+),\s*(\d+)\)", m.group(1))]
+
+
 def run_harness(n, seed, tag):
     ov, rep, err = sched.instrument(["queue.go", "session.go", "protocol_manager.go"])
     if err:
         return None, err
+    ov2, rerr = rewrite_stream()
+    if rerr:
+        return None, "cannot put Stream.readMore under control (anchor of the overlay rewrite): " + rerr
+    ov = dict(ov)
+    ov.update(ov2)
     outp = os.path.join(core.WORK, "c07_%s_%d.jsonl" % (tag, os.getpid()))
     rc, out, secs = core.go_test(PROP, "^TestVerif_C07$", {"VERIF_OUT": outp, "VERIF_N": str(n), "VERIF_SEED": str(seed)},
                                  extra_replace=ov, timeout=1500)
@@ -205,7 +301,7 @@ def run_harness(n, seed, tag):
 
 
 def brief(c):
-    return {"id": c["id"], "kind": c["kind"], "ops": c.get("ops"), "notes": c.get("notes"),
+    return {"id": c["id"], "kind": c["kind"], "ops": c.get("ops"), "notes": c.get("notes"), "reader": c.get("reader"),
             "pipes": [{k: p.get(k) for k in ("stream", "dir", "flushed", "failed", "closed", "close_via", "got", "reader_closed")} for p in c["pipes"]]}
 
 
@@ -214,10 +310,12 @@ def check(run):
     if gerr:
         run.add_corr_break("G: " + gerr)
     sticky, sdesc, serr = scan_switch()
-    if serr:
-        run.add_corr_break("G: " + serr, shape=True)
-    else:
-        write_switch(sticky)
+    moves, mdesc, merr = scan_reader()
+    for e in (serr, merr):
+        if e:
+            run.add_corr_break("G: " + e, shape=True)
+    if not serr and not merr:
+        write_switch(sticky, moves)
     run.proof = core.proof_step(PROP, run.tier)
     n = 24 if run.tier == "quick" else 600
     cases, err = run_harness(n, run.seed, run.tier)
@@ -252,6 +350,13 @@ def check(run):
                                    % (cid, c["kind"], d, si), brief(c))
         except RuntimeError as ex:
             run.add_corr_break("T: model evaluation failed: %s" % ex)
+    try:
+        for (cid, code) in eval_reader(cases, run.tier):
+            c = next(x for x in cases if x["id"] == cid)
+            run.add_corr_break("T: case %s (%s): the blocking read returned %r, Model/MuxReader.v says code %d for the same history"
+                               % (cid, c["kind"], c["reader"]["first"], code), brief(c))
+    except RuntimeError as ex:
+        run.add_corr_break("T: reader model evaluation failed: %s" % ex)
     reproduced = sorted({f["signature"] for f in run.oracle_failures if f["signature"] in EXPECTED_RACES})
     run.coverage.update({
         "evaluations": len(cases), "distinct_nontrivial": len(distinct),
@@ -263,6 +368,7 @@ def check(run):
         "histories_replayed_on_model": compared,
         "races_reproduced_on_unchanged_code": reproduced,
         "switch_fallback_sticky": sdesc if not serr else "UNKNOWN SHAPE: " + serr,
+        "switch_close_branch_moves": mdesc if not merr else "UNKNOWN SHAPE: " + merr,
     })
     run.assumptions += [
         "one writer thread per stream and direction (Stream is not safe for concurrent writers)",
